@@ -5101,6 +5101,9 @@ impl GlobalInferenceCtx<'_> {
                                     Ty::Unknown.into()
                                 }
                             } else {
+                                // `x : comptime { 5 } = 3;`
+                                self.report_non_type(expr, ty);
+
                                 Ty::Unknown.into()
                             }
                         }
